@@ -93,6 +93,8 @@ type c05Field struct {
 	Doc     c05Doc
 	Out     c05Out
 	Sub     []c05Field
+	// DefItems: elements of a slice default declared in the tag (default=[e1,e2])
+	DefItems []string
 }
 
 type c05Case struct {
@@ -103,8 +105,30 @@ type c05Case struct {
 	Out    struct{ Err, Ok, Any bool }
 }
 
+// c05Text expands the specification's names for runes outside ASCII: "<U+4F60>" is the rune U+4F60.
+func c05Text(s string) string {
+	if !strings.Contains(s, "<U+") {
+		return s
+	}
+	var b strings.Builder
+	for len(s) > 0 {
+		if strings.HasPrefix(s, "<U+") {
+			if j := strings.IndexByte(s, '>'); j > 3 {
+				if n, err := strconv.ParseUint(s[3:j], 16, 32); err == nil {
+					b.WriteRune(rune(n))
+					s = s[j+1:]
+					continue
+				}
+			}
+		}
+		b.WriteByte(s[0])
+		s = s[1:]
+	}
+	return b.String()
+}
+
 func decVal(m kit.M) c05Val {
-	v := c05Val{V: kit.Str(m["v"]), Text: kit.Str(m["text"]), Ms: kit.Num(m["ms"])}
+	v := c05Val{V: kit.Str(m["v"]), Text: c05Text(kit.Str(m["text"])), Ms: kit.Num(m["ms"])}
 	for _, it := range kit.List(m["items"]) {
 		v.Items = append(v.Items, decVal(it.(kit.M)))
 	}
@@ -137,10 +161,13 @@ func decField(m kit.M) c05Field {
 	f.Opts.Range.Lo, f.Opts.Range.Hi = kit.Str(r["lo"]), kit.Str(r["hi"])
 	f.Opts.Range.Li, f.Opts.Range.Ri, f.Opts.Range.On = kit.Bool(r["li"]), kit.Bool(r["ri"]), kit.Bool(r["on"])
 	d := m["doc"].(kit.M)
-	f.Doc = c05Doc{D: kit.Str(d["d"]), Text: kit.Str(d["text"]), Class: kit.Str(d["class"])}
+	f.Doc = c05Doc{D: kit.Str(d["d"]), Text: c05Text(kit.Str(d["text"])), Class: kit.Str(d["class"])}
 	for _, x := range kit.List(d["items"]) {
 		xm := x.(kit.M)
-		f.Doc.Items = append(f.Doc.Items, c05Item{kit.Str(xm["key"]), kit.Str(xm["text"]), kit.Str(xm["class"])})
+		f.Doc.Items = append(f.Doc.Items, c05Item{kit.Str(xm["key"]), c05Text(kit.Str(xm["text"])), kit.Str(xm["class"])})
+	}
+	for _, x := range kit.List(m["defitems"]) {
+		f.DefItems = append(f.DefItems, c05Text(kit.Str(x)))
 	}
 	f.Out = decOut(m["out"].(kit.M))
 	for _, s := range kit.List(m["sub"]) {
@@ -182,6 +209,9 @@ func c05Tag(tagKey string, f c05Field) string {
 	}
 	if f.Opts.Def != "" {
 		b.WriteString(",default=" + f.Opts.Def)
+	}
+	if len(f.DefItems) > 0 {
+		b.WriteString(",default=[" + strings.Join(f.DefItems, ",") + "]")
 	}
 	if len(f.Opts.Options) > 0 {
 		b.WriteString(",options=" + strings.Join(f.Opts.Options, "|"))
@@ -883,6 +913,119 @@ func (rn *c05Runner) runTyped(c *c05Case) (bads []*c05Bad, results []c05Result, 
 	return
 }
 
+// mutate edits every reachable slice and map element of v in place and appends / adds one more:
+// what a caller may legitimately do with a struct it got back.
+func mutate(v reflect.Value) {
+	switch v.Kind() {
+	case reflect.Ptr:
+		if !v.IsNil() {
+			mutate(v.Elem())
+		}
+	case reflect.Struct:
+		for i := 0; i < v.NumField(); i++ {
+			mutate(v.Field(i))
+		}
+	case reflect.Slice:
+		for i := 0; i < v.Len(); i++ {
+			poison(v.Index(i))
+		}
+		if v.CanSet() && !v.IsNil() {
+			// write through spare capacity too, then keep the longer slice
+			e := reflect.New(v.Type().Elem()).Elem()
+			poison(e)
+			v.Set(reflect.Append(v, e))
+		}
+	case reflect.Map:
+		if v.IsNil() {
+			return
+		}
+		for _, k := range v.MapKeys() {
+			e := reflect.New(v.Type().Elem()).Elem()
+			e.Set(v.MapIndex(k))
+			poison(e)
+			v.SetMapIndex(k, e)
+		}
+		if v.Type().Key().Kind() == reflect.String {
+			e := reflect.New(v.Type().Elem()).Elem()
+			poison(e)
+			v.SetMapIndex(reflect.ValueOf("zzMutated").Convert(v.Type().Key()), e)
+		}
+	}
+}
+
+func poison(e reflect.Value) {
+	switch e.Kind() {
+	case reflect.String:
+		e.SetString("MUTATED-" + e.String())
+	case reflect.Bool:
+		e.SetBool(!e.Bool())
+	case reflect.Int, reflect.Int8, reflect.Int16, reflect.Int32, reflect.Int64:
+		e.SetInt(e.Int() ^ 0x55)
+	case reflect.Uint, reflect.Uint8, reflect.Uint16, reflect.Uint32, reflect.Uint64:
+		e.SetUint(e.Uint() ^ 0x55)
+	case reflect.Float32, reflect.Float64:
+		e.SetFloat(e.Float() + 0.5)
+	default:
+		mutate(e)
+	}
+}
+
+// runTwice: the same document into the same type twice; the first result is edited in place in
+// between.  Both results must be members of the allowed set (AllowedAgain = Allowed): in particular
+// an absent field takes its declared default both times.
+func (rn *c05Runner) runTwice(c *c05Case) (bads []*c05Bad, results []c05Result, n int) {
+	tJSON, err := c05StructType("json", c.Fields, false)
+	if err != nil {
+		return []*c05Bad{{"infra", err.Error()}}, nil, 0
+	}
+	tKey, err := c05StructType("key", c.Fields, false)
+	if err != nil {
+		return []*c05Bad{{"infra", err.Error()}}, nil, 0
+	}
+	js := renderJSON(c.Fields, "exact")
+	ys := renderYAML(c.Fields, "")
+	if ys == "" {
+		ys = "{}\n"
+	}
+	type api struct {
+		name, tk, input string
+		t               reflect.Type
+		call            func(v any) error
+	}
+	apis := []api{
+		{"mapping.UnmarshalJsonBytes", "json", js, tJSON, func(v any) error { return mapping.UnmarshalJsonBytes([]byte(js), v) }},
+		// a freshly rendered map for every call: aliasing between the caller's map and the result is not claimed
+		{"mapping.UnmarshalKey", "key", js, tKey, func(v any) error { return mapping.UnmarshalKey(renderMap(c.Fields), v) }},
+		{"conf.LoadFromJsonBytes", "json", js, tJSON, func(v any) error { return conf.LoadFromJsonBytes([]byte(js), v) }},
+	}
+	if c.Yaml {
+		apis = append(apis,
+			api{"mapping.UnmarshalYamlBytes", "json", strconv.Quote(ys), tJSON, func(v any) error { return mapping.UnmarshalYamlBytes([]byte(ys), v) }},
+			api{"conf.LoadFromYamlBytes", "json", strconv.Quote(ys), tJSON, func(v any) error { return conf.LoadFromYamlBytes([]byte(ys), v) }})
+	}
+	for _, a := range apis {
+		for call := 1; call <= 2; call++ {
+			r := c05Call(a.t, a.call)
+			n++
+			results = append(results, r)
+			rn.rep.Count("call."+a.name+"."+r.class(), 1)
+			if b := judge(c, a.name, a.tk, r, a.input); b != nil {
+				if call == 2 && !strings.HasPrefix(b.Key, "C05:panic") {
+					b.Key = "C05:second-call:" + strings.TrimPrefix(b.Key, "C05:")
+					b.Msg = "second call with the same document, after the first result was edited in place by the caller: " + b.Msg
+				}
+				bads = append(bads, b)
+				break
+			}
+			if call == 1 && r.class() == "val" {
+				mutate(r.Val.Elem())
+				rn.rep.Count("twice.mutated", 1)
+			}
+		}
+	}
+	return
+}
+
 func (rn *c05Runner) runText(c *c05Case) (bads []*c05Bad, results []c05Result, n int) {
 	vals := renderText(c.Fields)
 	add := func(api string, r c05Result, input string, v string) {
@@ -1135,6 +1278,8 @@ func (rn *c05Runner) runCase(kc kit.Case) kit.Verdict {
 	switch {
 	case c.Family == "roundtrip":
 		bads, results, n = rn.runRoundTrip(&c)
+	case c.Family == "twice":
+		bads, results, n = rn.runTwice(&c)
 	case c.Src == "text":
 		bads, results, n = rn.runText(&c)
 	default:
